@@ -3,12 +3,20 @@ import parseprops, parsecase, dump, docgen
 from common import show_str
 
 THEOREMS = ['Pylx.C05_no_crash_strict', 'Pylx.C05_no_crash_partial', 'Pylx.C05_no_crash_full_false', 'Pylx.C05_located', 'Pylx.C05_line_col',
-            'Pylx.C05_shape_strict', 'Pylx.C05_parseTop_no_crash_strict', 'Pylx.C05_parseTop_located', 'Pylx.C05_parseTop_line_col']
+            'Pylx.C05_shape_strict', 'Pylx.C05_parseTop_no_crash_strict', 'Pylx.C05_parseTop_located', 'Pylx.C05_parseTop_line_col',
+            # "unbalanced markup is rejected" (PylxProofs/C05Bal*.lean)
+            'Pylx.C05Bal.accepted_balanced_run', 'Pylx.C05Bal.accepted_balanced', 'Pylx.C05Bal.unbalanced_rejected',
+            'Pylx.C05Bal.ins_bal', 'Pylx.C05Bal.fault_rejected', 'Pylx.C05Bal.C05_fault_rejected', 'Pylx.C05Bal.C05_fault_rejected_all', 'Pylx.C05Bal.C05_fault_rejected_top',
+            'Pylx.C05Bal.stray_close_brace_rejected', 'Pylx.C05Bal.stray_open_brace_rejected',
+            'Pylx.C05Bal.stray_close_paren_rejected', 'Pylx.C05Bal.stray_close_brack_rejected', 'Pylx.C05Bal.stray_end_rejected',
+            'Pylx.C05Bal.stray_open_paren_rejected', 'Pylx.C05Bal.stray_open_brack_rejected', 'Pylx.C05Bal.stray_begin_rejected',
+            'Pylx.C05Bal.stray_dollar_rejected']
+PROOF_MODULES = ['C05', 'C05Bal']
 RULE = ('PARSE strict: every string of <= k atoms over the LaTeX-significant alphabets (default + custom contexts), random token soups; '
         'every single structural fault (unmatched { } $ \\( \\) \\[ \\] \\begin{x} \\end{x}) injected at every token boundary outside '
         'verbatim text and comments of generated well-formed documents; oracle: outcome is a tree or LatexWalkerParseError with '
         '0 <= pos <= len and (lineno, colno) = pos_to_lineno_colno(pos); faulty documents are rejected; sig = outcome class + error kind')
-TRUSTED = ['expression arguments with allow_pre_space=False are outside the model (context D cases run through the oracle only)', 'tokenizer model (C11)', 'closed world of argument parsers (standard argument types, legacy verbatim parsers)']
+TRUSTED = ['tokenizer model (C11)', 'closed world of argument parsers (standard argument types, legacy verbatim parsers)']
 ASSUMPTIONS = ['construct nesting below the interpreter recursion limit (about 140 levels)']
 TRIVIAL_SIGS = ()
 CASE_TIMEOUT = 10.0
@@ -72,9 +80,19 @@ LEVEL_TEXT = ('Theorems about the strict parser model, for every closed-world co
               'C05_located — a parse error carries a position 0 <= p <= len; C05_line_col — the reported line/column are those of that '
               'position (via the C20 theorem); C05_shape_strict — the outcome shape. C05_no_crash_partial extends crash-freedom to tolerant '
               'mode under an explicit hypothesis on exotic start states, whose necessity is kernel-checked (C05_no_crash_full_false). '
-              'The "every single injected unmatched delimiter is rejected" clause is not a theorem: it is decided by fault enumeration on '
-              'generated documents (oracle), named as the remaining obligation. The model is tied to the parser by comparing outcome class, '
+              'The "every single injected unmatched delimiter is rejected" clause is a theorem on the fragment of C02_core: '
+              'C05Bal.accepted_balanced — for every context whose specials strings are plain (no \\ % { } $) and every input string without '
+              'calls of verbatim constructs (\\verb, verbatim-like environments, v arguments; a decidable scan VerbFree), acceptance by the strict '
+              'parser implies that, outside comments and with \\x read as one unit, the input has as many { as }, an even number of $, as many '
+              '\\( as \\), \\[ as \\], \\begin as \\end (a contract over all parser tasks, every fuel); C05Bal.unbalanced_rejected — such an '
+              'unbalanced input gets a located parse error; C05Bal.C05_fault_rejected (+ one corollary per fault kind, stray_*_rejected, and '
+              'the all-boundaries form C05_fault_rejected_all over the enumeration itemPaths, and the top-level form C05_fault_rejected_top) — for every document of Doc.Core without verbatim constructs (docOk), each of the nine '
+              'faults { } $ \\( \\) \\[ \\] \\begin{n} \\end{n} inserted at any item boundary or argument boundary of any nesting depth outside '
+              'comments is rejected; the hypotheses are shown necessary by kernel-checked witnesses that the library reproduces. Documents '
+              'with \\verb / verbatim environments / v arguments and documents outside Doc.Core stay with the fault enumeration (oracle). '
+              'The model is tied to the parser by comparing outcome class, '
               'error kind, position, line and column on bounded-exhaustive atom strings, soups and faulty documents.')
-LEVEL_NOTE = ('closed world of argument parsers; the fault-rejection clause is fault enumeration only; tolerant-mode exotic states (escape character '
+LEVEL_NOTE = ('closed world of argument parsers; the fault-rejection clause is proved for Doc.Core documents without verbatim constructs in contexts '
+              'with plain specials (all nine fault kinds, any depth) and is fault enumeration beyond that; tolerant-mode exotic states (escape character '
               'that is also a group delimiter with macros disabled) excluded by hypothesis; Lean kernel + propext/Classical.choice/Quot.sound')
 TECHNIQUE = 'Lean 4 proof (no-crash and located-error contracts over the parser model) + PARSE correspondence + fault-injection oracle'
